@@ -141,3 +141,23 @@ Definition mem_str (x : string) (l : list string) : bool := existsb (String.eqb 
 (* every field the full build fills from the component is refreshed from the component when the model is reused *)
 Definition reuse_refreshes_all (setup_comp : string) (setup : stmt) (quick_comp : string) (quick : stmt) : bool :=
   forallb (fun f => mem_str f (comp_fields quick_comp quick)) (comp_fields setup_comp setup).
+
+(* ---- solid-solution unknowns: which fields of the shared phase record x.phase.<f> are copied from <comp>.<f> on
+   EVERY path through a fragment (an assignment under an `if` without a matching one in the other branch does not count) *)
+Fixpoint always_copies (v w : string) (s : stmt) : bool :=
+  match s with
+  | SAssign v' (EVar w') => String.eqb v v' && String.eqb w w'
+  | SSeq a b => always_copies v w a || always_copies v w b
+  | SIf _ a b => always_copies v w a && always_copies v w b
+  | _ => false
+  end.
+
+(* the per-phase quantities the solid-solution residual (store_mb terms) reads, besides log K *)
+Definition phase_fields_read (ts : list fterm) : list string :=
+  somes (map (fun t => match t with FT _ src _ _ => strip_prefix "x.phase." src end) ts).
+
+Definition ss_phase_fields (ts : list fterm) : list string :=
+  (filter (fun f => negb (String.eqb f "lk")) (phase_fields_read ts) ++ ["dn"; "dnb"; "dnc"])%list.
+
+Definition copies_all_phase_fields (ts : list fterm) (comp : string) (s : stmt) : bool :=
+  forallb (fun f => always_copies ("x.phase." ++ f) (comp ++ "." ++ f) s) (ss_phase_fields ts).
